@@ -144,6 +144,7 @@ class MultiMatcher(mcore.Matcher):
         for mr in self.matchers:
             mr.reset()
         self.current = 0
+        self._next_matcher()
 
     def children(self):
         return [self.matchers[self.current]]
